@@ -213,6 +213,21 @@ void run_export_case(const json& c, const std::string& workdir, std::vector<json
             fill_direct_block(b, op.at("items"), e);
             e["ret"] = x->write_block(b);
         });
+        else if (o == "rotate_bad") {
+            // rotation to a destination that cannot be opened (documented to throw): invalid descriptor / path in a missing directory
+            bool exp = op.at("export").get<bool>();
+            logged(log, i, "rotate_bad", [&](json& e) {
+                e["closes"] = cur.id;
+                if (cur.kind == "fd") e["ret"] = x->rotate_output(-1, exp);
+                else e["ret"] = x->rotate_output(workdir + "/no_such_directory/" + cid + "_x", exp);
+            });
+            log.back()["closed"] = snapshot(cur);
+            Out none;
+            none.id = op.at("id").get<std::string>();
+            none.kind = cur.kind; none.comp = cur.comp;
+            none.base = workdir + "/" + cid + "_" + none.id + ".never_opened";
+            cur = none;
+        }
         else if (o == "rotate") {
             Out nxt;
             nxt.id = op.at("id").get<std::string>();
